@@ -157,7 +157,18 @@ class Flow:
     _s_AsyncFunctionDef = _s_FunctionDef
     _s_ClassDef = _s_FunctionDef
 
+    split_return_ifexp = False  # opt-in: `return A if T else B` is walked as `if T: return A` / `else: return B`
+
     def _s_Return(self, s, states):
+        if self.split_return_ifexp and isinstance(s.value, ast.IfExp):
+            t, f = self.cond(s.value.test, set(states))
+            o = Out()
+            for val, sts in ((s.value.body, t), (s.value.orelse, f)):
+                if sts:
+                    o2 = self._s_Return(ast.copy_location(ast.Return(value=val), s), sts)
+                    o.ret |= o2.ret
+                    o.exc |= o2.exc
+            return o
         cur = states
         if s.value is not None:
             cur = self.eval(s.value, cur)
